@@ -63,6 +63,22 @@ Theorem C19_sequential_histories_pass_clause_3 :
 Proof. exact PoolSeqLemmas.seq_histories_pass_clause_3. Qed.
 Print Assumptions C19_sequential_histories_pass_clause_3.
 
+(* Get hands out only connections that are usable and within their idle lifetime: over every
+   sequence of operations, from every state *)
+Theorem C19_sequential_hands_out_only_good :
+  forall cf good ops s s' rs t,
+    PoolSeq.prun cf good s ops = (s', rs) -> In (PoolSeq.RConn t) rs -> good t = true.
+Proof. exact PoolSeqLemmas.seq_hands_out_only_good. Qed.
+Print Assumptions C19_sequential_hands_out_only_good.
+
+(* ... in the form of the monitor's clause 7 *)
+Theorem C19_sequential_histories_pass_clause_7 :
+  forall cf bad ops s rs,
+    PoolSeq.prun cf (fun t => negb (mem_b N.eqb t bad)) PoolSeq.pst0 ops = (s, rs) ->
+    existsb (fun r => match r with PoolSeq.RConn t => mem_b N.eqb t bad | _ => false end) rs = false.
+Proof. exact PoolSeqLemmas.seq_histories_pass_clause_7. Qed.
+Print Assumptions C19_sequential_histories_pass_clause_7.
+
 (* non-vacuity: a reachable state in which a pooled connection has been handed to a second actor *)
 Example C19_example :
   exists s, reach 2 (fun _ => false) (fun _ => false) (fun _ => true) s /\ acts s 1 = AHold 0 /\ loc s 0 = PHeld 1.
